@@ -110,8 +110,11 @@ def through_stack(seed: int, api: str, stub: bytes, isd_port: t.Optional[int], s
     rk, blob = setup(seed)
     dc = refdc.DC([rk], now=(361, 10, 12), isd_port=isd_port or 1)
     dc.epm_stub = stub
-    _hint_i[0] += 1
-    dc.reply_alloc_hint = _HINTS[_hint_i[0] % 3]
+    import zlib
+
+    h_ = zlib.crc32(stub + api.encode() + server.encode())  # a function of the case, so that a replay meets the same server shape
+    dc.reply_alloc_hint = _HINTS[h_ % 3]
+    dc.epm_teardown = (h_ >> 3) % 2 == 0  # for half of the cases the endpoint mapper is gone by the time the client closes its connection
     with transport.network(dc) as hub, secctx.scripted_client(lambda u, p, **kw: secctx.ScriptedContext([b"C1"], 16)):
         try:
             if api == "sync":
